@@ -144,7 +144,9 @@ func c01CheckBatch(run *vlib.Run, cases []schemaCase) (map[int][]vlib.Violation,
 			add(sig, "re-encoding %s differs at %s: %s", r.Encoded, df.Path, df.Detail)
 		}
 		if r.HasStrict && r.StrictErr == "" && r.StrictEncoded != "" {
-			if sd, _ := smodel.CompareRoundTrip(c.Model, d.Def, d.JSON, r.StrictEncoded); len(sd) > 0 && len(diffs) == 0 {
+			// both decoders must yield the same value: the strict decoder's
+			// re-encoding is compared with the standard decoder's
+			if sd, _ := smodel.CompareRoundTrip(c.Model, d.Def, r.Encoded, r.StrictEncoded); len(sd) > 0 {
 				add(fmt.Sprintf("strict-roundtrip-differs:%s:%s:%s", f, sd[0].Class, sd[0].FieldKind), "value decoded by the strict decoder re-encodes to %s, differs at %s: %s", r.StrictEncoded, sd[0].Path, sd[0].Detail)
 			}
 		}
